@@ -122,7 +122,17 @@ def analyse(ctx, case, run, S):
             proof = adversarial_proof(run, info)
             V = [lin_of_point(run, pid) for pid in info['commitments']]
             promises = promise_fracs(run, i, info['promises'])
-            ch = member_challenges(run, v['logs_after'][i])
+            try:
+                ch = member_challenges(run, v['logs_after'][i])
+            except (AssertionError, IndexError):
+                # this member's own transcript does not hold the chain y, z, e.., e after the call: its challenges (and with them its weight binding)
+                # were not derived from ITS statement and transcript
+                kk = len(infos)
+                ctx.expect(False, 'C08:member-not-challenged', '%s: the transcript of member %d does not hold its own challenges after %s (the member is weighted and challenged through another member)' % (
+                    case['name'], i, v['action']), cfg, 'member_transcript_skipped',
+                    {'replay_cfg': {'scenario': 'batch', 'n': n, 'x': x, 'members': [dict({'m': 1, 'cap': 1, 'name_idx': 0}, **({'rng_replay_of': 0} if t else {})) for t in range(kk)], 'actions': ['VerifyOnly']}})
+                ch = None
+                break
             spec = relation_residual(run.norm, n, m, x, ch, proof, V, promises, G, H, g, h)
             w = run.norm.fvar('rnd_%d_%d' % (sid, i))
             total.add_lin(spec, w)
@@ -133,6 +143,8 @@ def analyse(ctx, case, run, S):
             nd1 = info['d1']
             groups.append(['elem_%d' % ks[e] for e in list(range(nd1)) + [nd1 + 3, nd1 + 4]])
             group_elems = list(range(nd1)) + [nd1 + 3, nd1 + 4]
+        if ch is None:
+            continue
         # (1) residual == sum_i w_i R_i with pairwise distinct weight variables
         compare_residual(ctx, run, S, cfg, run.form(ev['detail']['a']), total, '%s %s' % (case['name'], v['action']), 'C08:weighted-sum', pred='batch_relation_disagrees')
         # (3) derivation of the weights: every response scalar of every member is determined by what the weight RNG hashes
